@@ -771,7 +771,12 @@ func (e UnaryLogic) String() string {
 		s := []string{e.Operator.String(), e.Operand.String()}
 		return joinWithSpace(s)
 	}
-	return e.Operator.String() + e.Operand.String()
+	operand := e.Operand.String()
+	if strings.HasPrefix(operand, "!") || strings.HasPrefix(operand, ":") {
+		// "!!a" and "!:a" are scanned as other tokens than the ones printed
+		return e.Operator.String() + " " + operand
+	}
+	return e.Operator.String() + operand
 }
 
 type Concat struct {
